@@ -97,8 +97,17 @@ class Ser:
 def main(spec_path, out):
     spec = json.load(open(spec_path))   # [{"file":..., "items":[["Class","method"], [null,"function"]]}]
     lines = ["From Coq Require Import ZArith String List.", "Require Import Py.PyAst.", "Import ListNotations.", "Open Scope string_scope.", ""]
+    allnames = []
     for entry in spec:
         src = open(entry["file"]).read(); tree = ast.parse(src); ser = Ser(src)
+        if entry["items"] == "*":
+            # every method of every class and every module-level function of the file (used by whole-program analyses)
+            items = []
+            for n in tree.body:
+                if isinstance(n, ast.FunctionDef): items.append([None, n.name])
+                if isinstance(n, ast.ClassDef):
+                    items += [[n.name, m.name] for m in n.body if isinstance(m, ast.FunctionDef)]
+            entry = dict(entry, items=items, star=True)
         for cls, fn in entry["items"]:
             if cls is None and fn.startswith("="):
                 # module-level constant:  NAME = <expr>   ->  Definition src_const_NAME : expr
@@ -120,5 +129,8 @@ def main(spec_path, out):
             if node is None: lines.append("(* MISSING %s.%s in %s *)" % (cls, fn, entry["file"])); continue
             lines.append("(* %s : %s.%s, line %d *)" % (entry["file"], cls, fn, node.lineno))
             lines.append(ser.fundef(node, name)); lines.append("")
+            if entry.get("star"): allnames.append(("%s.%s" % (cls or "", fn), name))
+    if allnames:
+        lines.append("Definition src_all : list (string * fundef) :=\n  [" + ";\n   ".join("(%s, %s)" % (q(a), b) for a, b in allnames) + "].")
     open(out, "w").write("\n".join(lines))
 if __name__ == "__main__": main(sys.argv[1], sys.argv[2])
